@@ -372,3 +372,204 @@ func init() {
 		return rep.Finish()
 	}
 }
+
+// ---------------------------------------------------------------------------------------
+// C08: rating server
+
+type c08Args struct {
+	Costs []string `json:"costs"`
+}
+
+type c08Out struct {
+	Requests int            `json:"requests"`
+	Finds    []Finding      `json:"finds"`
+	Rules    map[string]int `json:"rules"`
+	Samples  []string       `json:"samples"`
+}
+
+func costClass(s string) string {
+	if n, err := strconv.ParseUint(s, 10, 32); err == nil {
+		if n == 0 {
+			return "zero"
+		}
+		return "integer"
+	}
+	if _, err := strconv.ParseFloat(s, 64); err == nil && strings.Contains(s, ".") {
+		return "decimal"
+	}
+	return "malformed"
+}
+
+func c08Job(t *testing.T, raw json.RawMessage) (any, error) {
+	var a c08Args
+	json.Unmarshal(raw, &a)
+	out := c08Out{Rules: map[string]int{}}
+	find := func(rule, detail string) {
+		out.Rules[rule]++
+		if out.Rules[rule] <= 3 {
+			out.Finds = append(out.Finds, Finding{rule, detail})
+		}
+	}
+	cfg := WorldCfg{NoABMF: true}
+	for i, c := range a.Costs {
+		cfg.Accounts = append(cfg.Accounts, Account{fmt.Sprintf("imsi-20893000000%04d", i), 1, "1000", c})
+	}
+	cfg.Accounts = append(cfg.Accounts, Account{"imsi-208930000009999", 1, "1000", "3"})
+	o := runWorld(t, cfg, nil, func(w *World) {
+		vs.Go("T1", func() {
+			ask := func(imsi string, sub cd.RequestSubType, consumed, quota uint32) (*cd.ServiceUsageResponse, string) {
+				cli, err := dialPeer("127.0.0.1:3868", "SUA")
+				if err != nil {
+					return nil, "dial: " + err.Error()
+				}
+				defer cli.conn.Close()
+				req := &cd.ServiceUsageRequest{SessionId: "rate-1", OriginHost: "verif-client", OriginRealm: "go-diameter", DestinationRealm: "go-diameter", DestinationHost: "server",
+					UserName: datatype.OctetString("CHF"), ActualTime: datatype.Time(time.Now()),
+					SubscriptionId: &cd.SubscriptionId{SubscriptionIdType: cd.END_USER_IMSI, SubscriptionIdData: datatype.UTF8String(imsi)},
+					ServiceRating:  &cd.ServiceRating{ServiceIdentifier: 1, RequestSubType: sub, ConsumedUnits: datatype.Unsigned32(consumed), MonetaryQuota: datatype.Unsigned32(quota)}}
+				m, err := cli.exchange(charging_code.ServiceUsageMessage, req)
+				if err != nil {
+					return nil, err.Error()
+				}
+				if m == nil {
+					return nil, "no answer"
+				}
+				var sua cd.ServiceUsageResponse
+				if err := m.Unmarshal(&sua); err != nil {
+					return nil, "undecodable answer: " + err.Error()
+				}
+				return &sua, ""
+			}
+			for i, cost := range a.Costs {
+				imsi := fmt.Sprintf("20893000000%04d", i)
+				cls := costClass(cost)
+				var u uint64
+				if cls == "integer" {
+					u, _ = strconv.ParseUint(cost, 10, 32)
+				}
+				vals := []uint32{0, 1, 2, 99, 1000, 65535, 65536, 1 << 31, math.MaxUint32}
+				if u > 1 {
+					vals = append(vals, uint32(u-1), uint32(u), uint32(u+1), uint32(7*u), uint32(7*u+u-1))
+				}
+				for _, sub := range []cd.RequestSubType{cd.REQ_SUBTYPE_RESERVE, cd.REQ_SUBTYPE_DEBIT, cd.REQ_SUBTYPE_AOC, cd.REQ_SUBTYPE_RELEASE} {
+					for _, v := range vals {
+						out.Requests++
+						what := fmt.Sprintf("stored unit cost %q, sub-type %d, consumed units / monetary quota %d", cost, sub, v)
+						sua, e := ask(imsi, sub, v, v)
+						if e != "" {
+							find("server-does-not-answer/"+cls+"-unit-cost", what+": "+e)
+							// the server must keep serving other subscribers
+							if s2, e2 := ask("208930000009999", cd.REQ_SUBTYPE_DEBIT, 5, 0); e2 != "" || s2.ServiceRating == nil || s2.ServiceRating.Price != 15 {
+								find("server-stops-serving-others", what+": afterwards a debit request of another subscriber got "+e2)
+							}
+							continue
+						}
+						sr := sua.ServiceRating
+						if string(sua.SessionId) != "rate-1" || sr == nil || sr.MonetaryTariff == nil || sr.MonetaryTariff.RateElement == nil || sr.MonetaryTariff.RateElement.UnitCost == nil {
+							find("answer-incomplete", what+fmt.Sprintf(": session %q, rating %+v", sua.SessionId, sr))
+							continue
+						}
+						uc := sr.MonetaryTariff.RateElement.UnitCost
+						// what the CHF decodes from the tariff (same arithmetic as getUnitCost)
+						chf := uint32(uc.ValueDigits) * uint32(math.Pow10(int(uc.Exponent)))
+						applied := uint64(chf)
+						if cls == "integer" {
+							if uint64(chf) != u {
+								find("tariff-decodes-to-other-unit-cost", what+fmt.Sprintf(": tariff digits %d exponent %d decode to %d at the CHF", uc.ValueDigits, uc.Exponent, chf))
+							}
+							applied = u
+						}
+						switch sub {
+						case cd.REQ_SUBTYPE_DEBIT:
+							exact := uint64(v) * applied
+							if exact <= math.MaxUint32 && uint64(sr.Price) != exact {
+								find("debit-price-not-exact/"+cls, what+fmt.Sprintf(": price %d, expected %d x %d = %d", sr.Price, v, applied, exact))
+							}
+						case cd.REQ_SUBTYPE_RESERVE:
+							if applied == 0 {
+								break
+							}
+							allowed := uint64(v) / applied
+							if uint64(sr.AllowedUnits) != allowed || uint64(sr.Price) != allowed*applied || uint64(sr.Price) > uint64(v) {
+								find("reserve-rating-not-exact/"+cls, what+fmt.Sprintf(": allowed units %d price %d, expected allowed %d price %d", sr.AllowedUnits, sr.Price, allowed, allowed*applied))
+							}
+						}
+						if len(out.Samples) < 3 && v == 1000 {
+							out.Samples = append(out.Samples, what+fmt.Sprintf(" -> allowed %d price %d tariff %d*10^%d", sr.AllowedUnits, sr.Price, uc.ValueDigits, uc.Exponent))
+						}
+					}
+				}
+			}
+		})
+	}, nil)
+	if o.Panic != "" || o.Res.Err != "" {
+		return nil, fmt.Errorf("engine: %s %s", o.Panic, o.Res.Err)
+	}
+	if o.Res.Deadlock {
+		find("blocked-forever", fmt.Sprint(o.Res.Blocked))
+	}
+	for _, p := range o.ThPanics {
+		find("driver-panic", oneLine(p, 300))
+	}
+	return out, nil
+}
+
+func init() {
+	jobHandlers["c08"] = c08Job
+	checks["C08"] = func(t *testing.T) int {
+		rep := NewReport("C08")
+		pool := NewPool(0)
+		costs := []string{"1", "2", "3", "10", "100", "255", "256", "65535", "65536", "4294967295", "0", "00", "007", "0.5", "1.5", "2.50", "1.", ".5", "", "abc", "-1", "1e3", " 2", "2 ", "4294967296", "99999999999999999999", "1,5", "0x10", "١"}
+		if rep.Tier == "thorough" {
+			for i := 4; i <= 40; i++ {
+				costs = append(costs, strconv.Itoa(i*i*i+1))
+			}
+		}
+		var jobs []Job
+		for i := 0; i < len(costs); i += 2 {
+			jobs = append(jobs, Job{Kind: "c08", Args: mustJSON(c08Args{Costs: costs[i:min(i+2, len(costs))]})})
+		}
+		reqs := 0
+		rules := map[string]int{}
+		var samples []string
+		exhaustive := true
+		for i, r := range pool.RunAll(jobs) {
+			if r.Crash != "" {
+				rep.Finding("process-crash", fmt.Sprintf("unit costs %s: the process hosting the rating server died: %s", jobs[i].Args, oneLine(r.Crash, 400)), map[string]any{"job": json.RawMessage(jobs[i].Args), "kind": "c08"})
+				continue
+			}
+			if r.Err != "" {
+				rep.EngineError(r.Err)
+				exhaustive = false
+				continue
+			}
+			var o c08Out
+			json.Unmarshal(r.Out, &o)
+			reqs += o.Requests
+			samples = append(samples, o.Samples...)
+			for k, v := range o.Rules {
+				rules[k] += v
+			}
+			for _, f := range o.Finds {
+				rep.Finding(f.Rule, f.Detail, map[string]any{"job": json.RawMessage(jobs[i].Args), "kind": "c08", "case": f.Detail})
+			}
+		}
+		if len(samples) > 5 {
+			samples = samples[:5]
+		}
+		rep.Cov["states"] = len(costs)
+		rep.Cov["transitions"] = reqs
+		rep.Cov["traces_validated_against_impl"] = reqs
+		rep.Cov["evaluations"] = reqs
+		rep.Cov["distinct_nontrivial"] = reqs
+		rep.Cov["rule"] = "every stored unit-cost string of the alphabet (integers incl. 0 and 2^32-1, leading zeros, decimal fractions, empty, non-numeric, negative, exponent, padded, overflowing) x 4 request sub-types x consumed/quota values {0,1,2,99,1000,65535,65536,2^31,2^32-1,u-1,u,u+1,7u,8u-1}; each sent over a real Diameter connection to the server started by rf.OpenServer"
+		rep.Cov["unit_cost_strings"] = costs
+		rep.Cov["finding_counts"] = rules
+		rep.Cov["exhaustive"] = exhaustive
+		if len(samples) == 0 {
+			samples = []string{"(none)"}
+		}
+		rep.Cov["samples"] = samples
+		return rep.Finish()
+	}
+}
